@@ -10,7 +10,7 @@ use crate::{
   obs::Obs,
   record::record,
   rng::Rng,
-  spec::{build_box, Spec},
+  spec::Spec,
 };
 
 pub fn def() -> PropDef {
@@ -43,12 +43,12 @@ pub fn ascii_tree_case(rng: &mut Rng, tier: Tier) -> Spec {
 }
 
 fn gen(rng: &mut Rng, tier: Tier) -> Value {
-  json!({ "spec": ascii_tree_case(rng, tier) })
+  json!({ "spec": ascii_tree_case(rng, tier), "share_instances": rng.chance(1, 2) })
 }
 
 fn check(case: &Value, obs: &mut Obs) {
   let spec = super::spec_of(case);
-  let src = build_box(&spec);
+  let src = super::build_under_test(case, &spec, obs);
   let source = src.source().to_string();
   let true_end = end_position(&source);
   let lines = lines_of(&source);
